@@ -413,11 +413,14 @@ func genC05(e *emitter, tier string, seed uint64) {
 	// (e) every push form in minimal and non-minimal encodings under MINIMALDATA
 	for _, era := range eras {
 		for _, fl := range []int{0, fMinimalData} {
-			for _, d := range [][]byte{{}, {0x01}, {0x10}, {0x11}, {0x81}, {0x00}, {0x80}, rep(1, 75), rep(1, 76), rep(1, 255), rep(1, 256)} {
+			for _, d := range [][]byte{{}, {0x01}, {0x10}, {0x11}, {0x81}, {0x00}, {0x80}, rep(1, 75), rep(1, 76), rep(1, 255), rep(1, 256), rep(1, 65535), rep(1, 65536)} {
+				if len(d) > 60000 && era == 0 {
+					continue // larger than a pre-Genesis script may be
+				}
 				forms := [][]byte{rawPush(d), minimalPush(d), append([]byte{0x4c, byte(len(d))}, d...), append([]byte{0x4d, byte(len(d)), byte(len(d) >> 8)}, d...),
-					append([]byte{0x4e, byte(len(d)), byte(len(d) >> 8), 0, 0}, d...)}
+					append([]byte{0x4e, byte(len(d)), byte(len(d) >> 8), byte(len(d) >> 16), 0}, d...)}
 				for _, f := range forms {
-					if len(d) > 255 && f[0] == 0x4c {
+					if (len(d) > 255 && f[0] == 0x4c) || (len(d) > 65535 && f[0] == 0x4d) {
 						continue
 					}
 					noteVerdict(e, ixExec(e, era|fl, f, []byte{0x82, 0x75, 0x51}), "push-forms")
